@@ -128,7 +128,9 @@ class Conformers(list):
             )
 
         # Delete from the end of the list to preserve the order when deleting
-        for i, idx in enumerate(reversed(idxs_with_energy)):
+        kept_confs: list = []
+
+        for idx in reversed(idxs_with_energy):
             conf = self[idx]
 
             if np.abs(conf.energy - avg_e) / std_dev_e > n_sigma:
@@ -139,19 +141,17 @@ class Conformers(list):
                 del self[idx]
                 continue
 
-            if i == 0:
-                # The first (last) conformer must be unique
-                continue
-
-            # Compare to the conformers that remain, as deleting shifts indexes
+            # Compare only to the conformers that will be retained, so one is
+            # never removed for being similar to another that is also removed
             if any(
                 np.abs(conf.energy - other.energy) < e_tol
-                for other in self
-                if other is not conf and other.energy is not None
+                for other in kept_confs
             ):
                 logger.info(f"Conformer {idx} had a non unique energy")
                 del self[idx]
                 continue
+
+            kept_confs.append(conf)
 
         logger.info(
             f"Stripped {n_prev_confs - len(self)} conformer(s)."
